@@ -226,8 +226,17 @@ def run_dump(spec, acc):
                 entries.append(126998)          # the PGN with the non-ASCII strings (added to the history below)
                 nums.add(126998)
             path = os.path.join(base, f"sub{c % 3}", f"dump{c}.jsonl") if c % 2 else os.path.join(base, f"dump{c}.jsonl")
-            claims = {s: [hist.claim_name(rng.randrange(1 << 20), 1851)] for s in (1, 2)}
-            events = hist.build_history(pool, rng, [1, 2], 60 if quick else 200, claims)
+            # a device re-announces itself: same unique number and manufacturer, other instance / function (an installer
+            # re-configured it), or another device altogether takes the address. The messages returned (and dumped) before
+            # that are what they were.
+            claims = {}
+            for s in (1, 2):
+                u_ = rng.randrange(1 << 20)
+                claims[s] = [hist.claim_name(u_, 1851), hist.claim_name(u_, 1851, inst_lo=rng.randrange(1, 8), inst_hi=rng.randrange(32)),
+                             hist.claim_name(u_, 1851, function=rng.choice([140, 150, 160]), sys_inst=rng.randrange(16)),
+                             hist.claim_name(rng.randrange(1 << 20), rng.choice([1851, 1855, 137]))]
+            events = hist.build_history(pool, rng, [1, 2], 60 if quick else 200, claims, p_claim=0.2 if c % 2 else 0.12)
+            acc.count("dump_histories_with_reclaims_of_one_device")
             # text that is not ASCII travels too (PGN 126998, three variable-length strings): the dump is the JSON text
             # of the message, whatever the characters
             for k_ in range(2):
@@ -252,7 +261,7 @@ def run_dump(spec, acc):
             for ev in events:
                 kind, r = hist.safe_feed(dec, ev)
                 if kind == "ok" and r is not None:
-                    returned.append((r, project.msg_proj(r)))
+                    returned.append((r, project.msg_proj(r), r.to_json()))
                     if not entries or r.PGN in nums or r.id.lower() in ids:
                         expected.append(r.to_json())
                         kept += 1
@@ -260,15 +269,17 @@ def run_dump(spec, acc):
                         skipped += 1
             dec.close()
             # the returned objects are the caller's: dumping them must not have changed them
-            for r, proj in returned:
-                if project.msg_proj(r) != proj:
-                    acc.violation("returned-message-changed-after-return", f"filter {entries} settings {sorted(extra)}: a returned {r.id} message changed after it was returned", {"filter": repr(entries)})
+            for r, proj, js in returned:
+                if project.msg_proj(r) != proj or r.to_json() != js:
+                    acc.violation("returned-message-changed-after-return", f"filter {entries} settings {sorted(extra)}: a returned {r.id} message changed after it was returned "
+                                  "(its JSON is no longer the line that was dumped for it)", {"filter": repr(entries), "json_when_returned": js[:400], "json_now": r.to_json()[:400]})
                     break
-            if extra.get("build_network_map") and any(proj[9] is None for _, proj in returned):
+            acc.count("returned_messages_re_read_at_the_end", len(returned))
+            if extra.get("build_network_map") and any(proj[9] is None for _, proj, _j in returned):
                 acc.violation("dumped-message-returned-without-hash", f"filter {entries}: with network mapping and dumping on, a returned message has no hash", {"filter": repr(entries)})
             if "preferred_units" in extra:
                 acc.count("dump_runs_with_unit_preferences")
-                if any(f.unit_of_measurement in ("C", "F", "Bar", "PSI", "deg", "kts", "c", "f", "bar", "psi") for r, _ in returned for f in r.fields):
+                if any(f.unit_of_measurement in ("C", "F", "Bar", "PSI", "deg", "kts", "c", "f", "bar", "psi") for r, _, _j in returned for f in r.fields):
                     acc.count("dump_runs_with_converted_fields")
             acc.count("dump_runs")
             acc.cover("dump_filter_styles", style)
